@@ -386,6 +386,8 @@ mut("C12", "transport-window-update-wakes-nobody", TR,
     "		return ConnectionError(ErrCodeFlowControl)\n	}\n	cc.cond.Broadcast()\n	return nil\n}", "		return ConnectionError(ErrCodeFlowControl)\n	}\n	return nil\n}")
 mut("C12", "undo-D16", TR,
     "			cs.readAborted = true\n			cs.abortStreamLocked(StreamError{\n				StreamID: f.StreamID,\n				Code:     ErrCodeFlowControl,\n			})", "			rl.endStreamError(cs, StreamError{\n				StreamID: f.StreamID,\n				Code:     ErrCodeFlowControl,\n			})")
+mut("C12", "transport-abort-after-flow-grant-leaks-conn-window", TR,
+    "			cc.wmu.Lock()\n			data := remain[:allowed]\n", "			cc.wmu.Lock()\n			select {\n			case <-cs.abort:\n				cc.wmu.Unlock()\n				return cs.abortErr\n			default:\n			}\n			data := remain[:allowed]\n")
 
 # ---- C06
 mut("C06", "metadata-from-context-returns-latest", "pkg/metadata/context.go",
@@ -519,6 +521,9 @@ mut("C13", "settings-enable-push-2-accepted", "pkg/http2/http2.go",
     "		if s.Val != 1 && s.Val != 0 {\n			return ConnectionError(ErrCodeProtocol)\n		}\n	case SettingInitialWindowSize:", "		if s.Val > 2 {\n			return ConnectionError(ErrCodeProtocol)\n		}\n	case SettingInitialWindowSize:")
 mut("C13", "ping-ack-answered", "pkg/http2/server.go",
     "	if f.IsAck() {\n		if sc.pingSent && sc.sentPingData == f.Data {", "	if false {\n		if sc.pingSent && sc.sentPingData == f.Data {")
+mut("C13", "frames-processed-while-error-goaway-is-queued", "pkg/http2/server.go",
+    "	if sc.inGoAway && (sc.goAwayCode != ErrCodeNo || f.Header().StreamID > sc.maxClientStreamID) {\n",
+    "	if sc.inGoAway && !sc.needToSendGoAway && (sc.goAwayCode != ErrCodeNo || f.Header().StreamID > sc.maxClientStreamID) {\n")
 
 # ---- C16
 PS = "pkg/proxyserver/proxyserver.go"
